@@ -6,6 +6,9 @@ from sa.query import Facts, call_name, find_calls, try_fold, calls_in, defs_of
 from sa.prov import Prov
 from sa.cfg import walk_no_nested
 from .c06 import _strip
+from .c01 import _fold_rep
+from sa.layout import Layout
+from sa.decide import Walker, cmp_parts
 
 TECHNIQUE = ("provenance expansion of the hash computation and of every value written to disk, "
              "taint-style confinement of the one-time key (which calls may receive it), module-state and "
@@ -33,46 +36,79 @@ def run(run):
     fn = P.func("admin.ledger_utils.compute_app_hash")
     g = A.cfg(fn, None)
     p = fn.params[0]
-    loops = [n for n in ast.walk(fn.node) if isinstance(n, (ast.For, ast.While))]
-    run.check("R1", len(loops) == 1 and isinstance(loops[0], ast.For), "one loop over the areas", key="compute_app_hash|loops", where=fn.loc(),
-              message=f"compute_app_hash has {len(loops)} loops (expected the single loop over the areas)")
-    ups = [n for n in A.own_nodes(fn) if isinstance(n, ast.Call) and call_name(n) == "update"]
-    run.check("R1", len(ups) == 1, "one update per area", key="compute_app_hash|updates", where=fn.loc(),
-              message=f"{len(ups)} digest updates in compute_app_hash")
-    for u in ups:
+    L = Layout(lambda e: try_fold(P, e, fn, None))
+
+    def stream(x):
+        """canonical `H | <bytes fed>` of a hash-object expression: sha256(X) and sha256() + updates are the same stream"""
+        e = ast.parse(x, mode="eval").body
+        if isinstance(e, ast.Call) and norm(e.func) in ("sha256", "hashlib.sha256") and len(e.args) == 1 and not e.keywords:
+            return f"sha256() | {L.canon(e.args[0])}"
+        return L.canon(e)
+    got = set()
+    n_ret = 0
+    for r in [n for n in A.own_nodes(fn) if isinstance(n, ast.Return)]:
+        n_ret += 1
+        v = r.value
+        if not (isinstance(v, ast.Call) and isinstance(v.func, ast.Attribute) and v.func.attr == "digest" and not v.args):
+            got.add("?" + norm(v))
+            continue
+        for rn in g.nodes_of(r):
+            got |= _fold_rep({stream(x) for x in PV.expand_consistent(fn, None, v.func.value, rn)})
+    want = f"sha256() | repeat(ELEM(IntelHexParser({p}).getAreas()).data)"
+    run.floor("R1", "returns of compute_app_hash", n_ret, 1)
+    run.check("R1", got == {want}, "digest of one fresh sha256 fed with area.data of every area, in getAreas() order", key="compute_app_hash|update-expr",
+              where=fn.loc(), message=f"compute_app_hash returns the digest of {sorted(got)[:2]}, expected `{want}`: part of the image would not be covered by the "
+              "hash (slice/filter) or another object is hashed")
+    for u in [n for n in A.own_nodes(fn) if isinstance(n, ast.Call) and call_name(n) == "update"]:
         for un in g.nodes_of(u):
-            got = {_strip(x) for x in PV.expand_consistent(fn, None, u, un)}
-            want = _strip(f"sha256().update(ELEM(IntelHexParser({p}).getAreas()).data)")
-            run.check("R1", got == {want}, "update(area.data) for each area of the parsed image", key="compute_app_hash|update-expr",
-                      where=fn.loc(u), message=f"the digest is fed with {sorted(got)[:1]}, expected `{want}`: part of the "
-                      "image would not be covered by the hash (slice/filter) or another object is hashed")
-            # unconditional inside the loop body: dominated only by the loop's has-item edge
             conds = [f for f in F.local(fn, None, un)]
             run.check("R1", not conds, "every area is hashed unconditionally", key="compute_app_hash|conditional-update", where=fn.loc(u),
                       message=f"the digest update is conditional on {[c.text() for c in conds]}")
-            if loops:
-                body = loops[0].body
-                run.check("R1", len(body) == 1 and isinstance(body[0], ast.Expr) and body[0].value is u,
-                          "loop body is exactly the update", key="compute_app_hash|loop-body", where=fn.loc(loops[0]),
-                          message="the area loop does more than one unconditional update(a.data) (inner chunking / early exit)")
-    for r in [n for n in A.own_nodes(fn) if isinstance(n, ast.Return)]:
-        for rn in g.nodes_of(r):
-            got = {_strip(x) for x in PV.expand_consistent(fn, None, r.value, rn)}
-            run.check("R1", got == {"sha256().digest()"}, "returns the digest of that object", key="compute_app_hash|return", where=fn.loc(r),
-                      message=f"compute_app_hash returns {sorted(got)}")
-    hs = [n for n in A.own_nodes(fn) if isinstance(n, ast.Call) and norm(n.func) in ("sha256", "hashlib.sha256")]
-    run.check("R1", len(hs) == 1 and not hs[0].args, "single fresh sha256 object", key="compute_app_hash|hash-object", where=fn.loc(),
-              message="compute_app_hash does not use exactly one fresh sha256() object")
+    for lp in [n for n in A.own_nodes(fn) if isinstance(n, (ast.For, ast.While))]:
+        exits = [n for n in ast.walk(lp) if isinstance(n, (ast.Break, ast.Continue, ast.Return))]
+        run.check("R1", isinstance(lp, ast.For) and not exits, "the area loop has no early exit", key="compute_app_hash|loop-body", where=fn.loc(lp),
+                  message="the area loop can stop or skip (break / continue / return / while): not every area is hashed")
     imp = fn.module.imports.get("sha256")
     run.check("R1", imp == ("from", "hashlib", "sha256"), "sha256 is hashlib's", key="ledger_utils|sha256-import", where=fn.module.relpath,
               message=f"`sha256` in ledger_utils is imported from {imp}")
-    for lp in loops:
-        run.check("R1", norm(lp.iter) == "parser.getAreas()" and isinstance(lp.iter, ast.Call), "iterates getAreas() as returned",
-                  key="compute_app_hash|iteration", where=fn.loc(lp), message=f"areas are iterated as `{norm(lp.iter)}` (re-ordered, sliced or filtered)")
     sm = P.func("signapp.main")
-    hd = [norm(d.value) for d in defs_of(A, sm, "app_hash")]
-    run.check("R1", hd == ["compute_app_hash(options.app_path).hex()"], "signapp hash = compute_app_hash(app path)", key="signapp|hash-source",
-              where=sm.loc(), message=f"signapp computes the app hash as {hd}")
+    gsm = A.cfg(sm, None)
+    hv = set()
+    for c_ in find_calls(A, sm, "SignerVersion"):
+        for cn in gsm.nodes_of(c_):
+            if c_.args:
+                hv |= {_strip(x) for x in PV.expand_consistent(sm, None, c_.args[0], cn, stop=("options",))}
+    run.check("R1", hv == {"compute_app_hash(options.app_path).hex()"}, "signapp hash = compute_app_hash(app path)", key="signapp|hash-source",
+              where=sm.loc(), message=f"signapp builds the signer version from the hash {sorted(hv)[:2]}")
+    # `message` (and every operation without an existing authorization file) describes the image given on the command line
+    ops = ["hash", "message", "key", "eth", "manual"]
+    fresh = _strip("SignerAuthorization.for_signer_version(SignerVersion(compute_app_hash(options.app_path).hex(), options.iteration))")
+    for op in ("message",):
+        def atom(e, op=op):
+            cp = cmp_parts(e)
+            if cp is None:
+                return None
+            l, o, r = cp
+            if norm(l) == "options.operation":
+                if o in ("==", "!=") and isinstance(r, ast.Constant):
+                    return ((op == r.value) == (o == "=="), True)
+                if o in ("in", "not in") and isinstance(r, (ast.List, ast.Tuple, ast.Set)) and all(isinstance(x, ast.Constant) for x in r.elts):
+                    return ((op in [x.value for x in r.elts]) == (o == "in"), True)
+            return None
+        n_sites = 0
+        for lf in Walker(A, sm, None, atom, max_leaves=2000, max_steps=60000).walk(gsm.entry):
+            for k, st, v in lf.effects:
+                for c_ in ([x for x in ast.walk(v) if isinstance(x, ast.Call)] if isinstance(v, ast.AST) else []):
+                    if call_name(c_) in ("save_to_jsonfile", "get_authorization_msg") and isinstance(c_.func, ast.Attribute):
+                        n_sites += 1
+                        recv = _strip(norm(lf.deep(c_.func.value, stop=("options",))))
+                        okv = recv == fresh if call_name(c_) == "save_to_jsonfile" else recv == _strip(
+                            "SignerVersion(compute_app_hash(options.app_path).hex(), options.iteration)")
+                        run.check("R1", okv, f"`{op}`: the authorization written / printed is the one of the given image and iteration",
+                                  key=f"signapp|{op}|{call_name(c_)}-source", where=sm.loc(st),
+                                  message=f"signapp {op}: `{call_name(c_)}` is applied to `{recv[:160]}`, not to the authorization freshly computed from the "
+                                          "image and iteration given on the command line (an existing output file would be re-used: hash of another image)")
+        run.floor("R1", f"authorization uses on the `{op}` paths", n_sites, 2)
 
     # ---------------------------------------------------------------- R2
     run.rule("R2", "One-time key: defined once, inside main(), as ecdsa.SigningKey.generate(curve=ecdsa.SECP256k1) with no "
@@ -119,16 +155,27 @@ def run(run):
                                                          and not skd[0].value.args and not skd[0].value.keywords)),
               "sk defined once from generate()", key="signonetime|sk-definitions", where=so.loc(),
               message=f"`sk` definitions: {[norm(d.value)[:50] for d in skd]}")
-    uses = [n for n in walk_no_nested(so.node) if isinstance(n, ast.Name) and n.id == "sk" and isinstance(n.ctx, ast.Load)]
     par = {}
     for x in ast.walk(so.node):
         for c in ast.iter_child_nodes(x):
             par[id(c)] = x
+    aliases = {"sk"}
+    changed = True
+    while changed:          # plain copies of the key (e.g. the parameter of an inlined helper) are the key too
+        changed = False
+        for n in A.own_nodes(so):
+            if isinstance(n, ast.Assign) and isinstance(n.value, ast.Name) and n.value.id in aliases:
+                for t in n.targets:
+                    if isinstance(t, ast.Name) and t.id not in aliases:
+                        aliases.add(t.id)
+                        changed = True
+    uses = [n for n in walk_no_nested(so.node) if isinstance(n, ast.Name) and n.id in aliases and isinstance(n.ctx, ast.Load)]
     bad = []
     for u in uses:
         pn = par.get(id(u))
         ok = isinstance(pn, ast.Attribute) and pn.attr in ("get_verifying_key", "sign_digest") and isinstance(par.get(id(pn)), ast.Call) \
             and par[id(pn)].func is pn
+        ok = ok or (isinstance(pn, ast.Assign) and pn.value is u and all(isinstance(t, ast.Name) for t in pn.targets))
         if not ok:
             bad.append(u)
     run.floor("R2", "uses of sk", len(uses), 2)
@@ -141,13 +188,25 @@ def run(run):
     run.rule("R3", "Binding: for each app_path of the loop the signed digest is compute_app_hash(that app_path), DER-encoded; the "
              "file written is f'{app_path}.sig' and receives that signature's hex; the public key file receives the uncompressed "
              "verifying key (hex) of the same sk.")
-    loops = [n for n in ast.walk(so.node) if isinstance(n, ast.For)]
+    loops = [n for n in A.own_nodes(so) if isinstance(n, ast.For)]
     run.check("R3", len(loops) == 1 and norm(loops[0].iter) == "options.app_path.split(',')", "loop over the given apps", key="signonetime|loop",
               where=so.loc(), message="the app loop changed")
     sg = [c for c in find_calls(A, so, "sign_digest")]
     run.check("R3", len(sg) == 1, "one signing site", key="signonetime|sign-sites", where=so.loc(), message=f"{len(sg)} sign_digest sites")
     app = "ELEM(options.app_path.split(',')).strip()"
     STOP = ("sk", "options")
+    # every listed image is signed and written: no way round the signing / writing inside an iteration
+    for lp in loops:
+        fh = [n for n in g.nodes if n.kind == "for" and n.ast is lp]
+        ft = [n for n in g.nodes if n.kind == "T" and n.note == "has-item" and n.cond in fh]
+        wr_nodes = [x for n in ast.walk(lp) if isinstance(n, ast.Call) and call_name(n) == "write" for x in g.nodes_of(n)]
+        sg_nodes = [x for c in sg for x in g.nodes_of(c)]
+        for t in ft:
+            for what, nodes in (("signed", sg_nodes), ("written", wr_nodes)):
+                p_ = g.witness_path(t, fh[0], avoid=set(nodes), edge_ok=lambda a, b: not g.is_exc_edge(a, b)) if nodes else [t]
+                run.check("R3", p_ is None, f"every listed image is {what}", key=f"signonetime|loop|skip-{what}", where=so.loc(lp),
+                          message=f"an iteration of the app loop can finish without the image being {what} (skip / continue): its .sig file would be missing or "
+                                  "left over from another key", witness=g.describe_path(p_) if p_ and len(p_) > 1 else None)
     for c in sg:
         for cn in g.nodes_of(c):
             got = {_strip(x) for x in PV.expand_consistent(so, None, c.args[0], cn, stop=STOP)}
@@ -156,7 +215,7 @@ def run(run):
             run.check("R3", any(k.arg == "sigencode" and norm(k.value) == "ecdsa.util.sigencode_der" for k in c.keywords), "DER signature",
                       key="signonetime|der", where=so.loc(c), message="the signature is not DER-encoded")
     opens = [n for n in A.own_nodes(so) if isinstance(n, ast.Call) and call_name(n) == "open"]
-    withs = [n for n in ast.walk(so.node) if isinstance(n, ast.With)]
+    withs = [n for n in A.own_nodes(so) if isinstance(n, ast.With)]
     pairs = []
     for w in withs:
         o = w.items[0].context_expr
